@@ -1,0 +1,127 @@
+// Verification hooks (feature `slawlor_ractor_verif`). Never enabled by the
+// workspace's own build or tests; everything in here is inert unless an external
+// harness installs a gate / point hook on the current thread.
+
+//! Hooks used by an external verification harness. Compiled only with the
+//! `slawlor_ractor_verif` cargo feature.
+
+use std::cell::RefCell;
+use std::future::Future;
+use std::pin::Pin;
+use std::sync::Arc;
+use std::task::Context;
+use std::task::Poll;
+use std::task::Waker;
+
+/// A task gate decides when a spawned task may be polled. It lets a harness
+/// own the task schedule of a single-threaded runtime.
+pub trait TaskGate: Send + Sync {
+    /// A new task was spawned; returns its id
+    fn register(&self, name: Option<&str>) -> u64;
+    /// May the task be polled right now? When `false` the gate keeps `waker`
+    /// (the executor's waker of the task) to re-poll it once permitted.
+    fn permit(&self, id: u64, waker: &Waker) -> bool;
+    /// The waker handed to the wrapped future: waking it marks the task runnable
+    fn inner_waker(&self, id: u64) -> Waker;
+    /// One poll of the wrapped future finished (`done` = it completed)
+    fn polled(&self, id: u64, done: bool);
+    /// The wrapped future was dropped (after completion or by cancellation)
+    fn dropped(&self, id: u64);
+}
+
+thread_local! {
+    static GATE: RefCell<Option<Arc<dyn TaskGate>>> = const { RefCell::new(None) };
+    static POINT_HOOK: RefCell<Option<Arc<dyn PointHook>>> = const { RefCell::new(None) };
+}
+
+/// Install (or remove) the task gate of the current thread
+pub fn install_gate(gate: Option<Arc<dyn TaskGate>>) {
+    GATE.with(|g| *g.borrow_mut() = gate);
+}
+
+/// The task gate of the current thread, if any
+pub fn current_gate() -> Option<Arc<dyn TaskGate>> {
+    GATE.with(|g| g.borrow().clone())
+}
+
+/// A future wrapper that polls its inner future only with the gate's permission
+pub struct Gated<F> {
+    inner: Option<Pin<Box<F>>>,
+    id: u64,
+    gate: Arc<dyn TaskGate>,
+}
+
+impl<F> std::fmt::Debug for Gated<F> {
+    fn fmt(&self, f: &mut std::fmt::Formatter<'_>) -> std::fmt::Result {
+        write!(f, "Gated({})", self.id)
+    }
+}
+
+impl<F> Gated<F> {
+    /// Wrap `inner`, registering it with `gate`
+    pub fn new(gate: Arc<dyn TaskGate>, name: Option<&str>, inner: F) -> Self {
+        let id = gate.register(name);
+        Self {
+            inner: Some(Box::pin(inner)),
+            id,
+            gate,
+        }
+    }
+
+    /// The gate's id of this task
+    pub fn id(&self) -> u64 {
+        self.id
+    }
+}
+
+impl<F: Future> Future for Gated<F> {
+    type Output = F::Output;
+
+    fn poll(self: Pin<&mut Self>, cx: &mut Context<'_>) -> Poll<Self::Output> {
+        let this = self.get_mut();
+        if !this.gate.permit(this.id, cx.waker()) {
+            return Poll::Pending;
+        }
+        let waker = this.gate.inner_waker(this.id);
+        let mut inner_cx = Context::from_waker(&waker);
+        let Some(inner) = this.inner.as_mut() else {
+            return Poll::Pending;
+        };
+        let result = inner.as_mut().poll(&mut inner_cx);
+        if result.is_ready() {
+            // drop the finished future now so that its destructors run inside the step
+            this.inner = None;
+        }
+        this.gate.polled(this.id, result.is_ready());
+        result
+    }
+}
+
+impl<F> Drop for Gated<F> {
+    fn drop(&mut self) {
+        // drop the inner future first so that its destructors (lifecycle guards) are
+        // part of this task's history before the gate forgets the task
+        self.inner = None;
+        self.gate.dropped(self.id);
+    }
+}
+
+/// A hook invoked at `verif_point!` schedule points on threads that installed one
+pub trait PointHook: Send + Sync {
+    /// The current thread reached the schedule point `label`
+    fn point(&self, label: &'static str);
+}
+
+/// Install (or remove) the schedule-point hook of the current thread
+pub fn install_point_hook(hook: Option<Arc<dyn PointHook>>) {
+    POINT_HOOK.with(|h| *h.borrow_mut() = hook);
+}
+
+/// Called by `verif_point!`
+#[inline]
+pub fn point(label: &'static str) {
+    let hook = POINT_HOOK.with(|h| h.borrow().clone());
+    if let Some(hook) = hook {
+        hook.point(label);
+    }
+}
